@@ -25,7 +25,9 @@ class Sgp4(AnalyticalPropagator):
             orbit (Orbit)
         """
 
-        self._orbit = orbit
+        # Keep a copy, as the other propagators do: an in-place modification
+        # of the orbit shall trigger a new initialisation
+        self._orbit = orbit.copy()
         tle = Tle.from_orbit(orbit)
         lines = tle.text.splitlines()
 
